@@ -417,6 +417,7 @@ func runMyRawClient(conn net.Conn, script []Stmt, results []StmtResult, o myRawO
 		return fmt.Errorf("startup: no OK after the handshake response: %.60q", okp)
 	}
 	var open []uint32
+	prepared := map[string]uint32{}
 	for i, st := range script {
 		res := &results[i]
 		clientIdles(st.IdleBefore)
@@ -429,33 +430,47 @@ func runMyRawClient(conn net.Conn, script []Stmt, results []StmtResult, o myRawO
 			}
 			continue
 		}
-		if err := c.command(0x16, []byte(st.SQL)); err != nil {
-			return fmt.Errorf("statement %d: %w", i, err)
-		}
-		p, err := c.readPacket()
-		if err != nil {
-			return fmt.Errorf("statement %d: %w", i, err)
-		}
-		if len(p) > 0 && p[0] == 0xff {
-			myErrPacket(p, res)
-			res.Ready = true
-			continue
-		}
-		if len(p) < 12 || p[0] != 0x00 {
-			return fmt.Errorf("statement %d: malformed answer to prepare %.30q", i, p)
-		}
-		id := binary.LittleEndian.Uint32(p[1:])
-		nCols := int(binary.LittleEndian.Uint16(p[5:]))
-		nParams := int(binary.LittleEndian.Uint16(p[7:]))
-		if _, err := c.readDefs(nParams, o); err != nil {
-			return fmt.Errorf("statement %d: parameter definitions: %w", i, err)
-		}
-		if _, err := c.readDefs(nCols, o); err != nil {
-			return fmt.Errorf("statement %d: column definitions: %w", i, err)
-		}
-		open = append(open, id)
-		if nParams != len(st.Args) {
-			return fmt.Errorf("statement %d: the server counts %d parameters, the statement has %d", i, nParams, len(st.Args))
+		// with reexec a statement text seen before in the session is not prepared again: the statement
+		// is executed with the new values and without repeating the types (an application that prepares
+		// once, binds its buffers once and executes per row)
+		sig := fmt.Sprintf("%s|%s", st.SQL, myArgSignature(st.Args))
+		known, reuse := prepared[sig]
+		reuse = reuse && o.reexec
+		var id uint32
+		if reuse {
+			id = known
+		} else {
+			if err := c.command(0x16, []byte(st.SQL)); err != nil {
+				return fmt.Errorf("statement %d: %w", i, err)
+			}
+			p, err := c.readPacket()
+			if err != nil {
+				return fmt.Errorf("statement %d: %w", i, err)
+			}
+			if len(p) > 0 && p[0] == 0xff {
+				myErrPacket(p, res)
+				res.Ready = true
+				continue
+			}
+			if len(p) < 12 || p[0] != 0x00 {
+				return fmt.Errorf("statement %d: malformed answer to prepare %.30q", i, p)
+			}
+			id = binary.LittleEndian.Uint32(p[1:])
+			nCols := int(binary.LittleEndian.Uint16(p[5:]))
+			nParams := int(binary.LittleEndian.Uint16(p[7:]))
+			if _, err := c.readDefs(nParams, o); err != nil {
+				return fmt.Errorf("statement %d: parameter definitions: %w", i, err)
+			}
+			if _, err := c.readDefs(nCols, o); err != nil {
+				return fmt.Errorf("statement %d: column definitions: %w", i, err)
+			}
+			open = append(open, id)
+			if nParams != len(st.Args) {
+				return fmt.Errorf("statement %d: the server counts %d parameters, the statement has %d", i, nParams, len(st.Args))
+			}
+			if len(st.Args) > 0 {
+				prepared[sig] = id
+			}
 		}
 		execs := 1
 		if o.reexec && len(st.Args) > 0 && strings.HasPrefix(strings.ToUpper(strings.TrimSpace(st.SQL)), "SELECT") {
@@ -485,7 +500,7 @@ func runMyRawClient(conn net.Conn, script []Stmt, results []StmtResult, o myRawO
 					}
 				}
 			}
-			args, err := myEncodeArgs(st.Args, e == 0, long)
+			args, err := myEncodeArgs(st.Args, e == 0 && !reuse, long)
 			if err != nil {
 				return fmt.Errorf("statement %d: %w", i, err)
 			}
@@ -510,4 +525,28 @@ func runMyRawClient(conn net.Conn, script []Stmt, results []StmtResult, o myRawO
 	}
 	_ = c.command(0x01, nil)
 	return nil
+}
+
+// myArgSignature names the wire types the arguments are sent with (NULLs change the type list).
+func myArgSignature(args []interface{}) string {
+	var b strings.Builder
+	for _, a := range args {
+		switch v := a.(type) {
+		case nil:
+			b.WriteByte('n')
+		case int64, int:
+			b.WriteByte('i')
+		case string:
+			b.WriteByte('s')
+		case []byte:
+			if v == nil {
+				b.WriteByte('n')
+			} else {
+				b.WriteByte('s')
+			}
+		default:
+			b.WriteByte('?')
+		}
+	}
+	return b.String()
 }
